@@ -33,6 +33,7 @@ def build(root, markers, rng):
     mod('stubbed.py')
     files['stubbed.pyi'] = 'def func(a: int) -> int: ...\n'
     mod('__main__.py')
+    mod('setuptools/__init__.py', '')       # answered by a third-party sys.meta_path finder for `import distutils`
     mod('dyn.py', '__all__ = [n for n in ("a", "b")]\nimport sys\nsys.path.append(%r)\na = b = 1\n' % root)
     for rel, text in files.items():
         p = os.path.join(root, rel)
@@ -57,6 +58,7 @@ BUFFERS = [
     'import pkg\npkg.sub.thing\npkg.thing\nfrom pkg import gi\ngi.value\nimport pkg.gi as g2\ng2.func(',
     'import ns.inner\nns.inner.func(\nimport setup, conftest, sitecustomize, usercustomize\nsetup.value\nconftest.func(',
     'import stubbed\nstubbed.func(\nimport sourceless\nsourceless.value\nimport dyn\ndyn.a\nfrom dyn import *\nb',
+    'import distutils\ndistutils.core\nimport setuptools\nsetuptools.x',
     'import __main__\n__main__.value\nimport importlib\nimportlib.import_module("plain").func(\n__import__("plain").value\n'
     'exec("import plain")\neval("plain")\nplain',
 ]
